@@ -20,3 +20,7 @@ Definition poly_prefilter_sound := Lemmas3.poly_prefilter_sound.
 Definition circle_classify_sound := Lemmas3.circle_classify_sound.
 Definition range_classify_sound := Lemmas3.range_classify_sound.
 Definition rect_polygon_agree_axis := Lemmas3.rect_polygon_agree_axis.
+Definition copy_identity := Lemmas3.copy_identity.
+Definition copy_then_ops := Lemmas3.copy_then_ops.
+Definition restore_region := Lemmas3.restore_region.
+Definition restore_then_ops := Lemmas3.restore_then_ops.
